@@ -51,6 +51,8 @@ def post_output_geobox(args, kw, res, exc, snap):
     wit = lambda extra=None: {"source": gen.gbox_desc(src), "target": str(crs)[:40], "resolution": repr(p["resolution"]), "shape": repr(p["shape"]), "anchor": repr(p["anchor"]), "tight": p["tight"], "tol": p["tol"],
                               "result": gen.gbox_desc(res) if res is not None else None, **(extra or {})}
     if exc is not None:
+        if isinstance(exc, ValueError) and isinstance(p["resolution"], str) and p["resolution"].lower() not in ("auto", "same", "fit"):
+            return _mon.skip("compute_output_geobox", "unknown resolution keyword refused (as documented)")
         return _mon.fail("compute_output_geobox", wit({"exc": exc}), key="output-raises")
     out = res
     ny, nx = src.shape
